@@ -128,7 +128,20 @@ pub fn run_case(args: &[&str]) -> Option<String> {
     let flag = Arc::new(WakeFlag(AtomicBool::new(true)));
     let waker = std::task::Waker::from(flag.clone());
     let mut cx = Context::from_waker(&waker);
+    // gt=1 (C13): the semaphore is saturated — the other mc-1 permits are taken and held — and after every poll of the task
+    // that returned Pending a fresh get_token() is polled once: it must stay Pending for as long as the connection task lives
+    let gate_probe = kv(args, "gt") == Some("1") && stop_at.is_none();
+    let mut held = vec![];
+    if gate_probe { for _ in 1..mc { let r = runner.as_ref().unwrap(); let f = r.get_token(); futures_util::pin_mut!(f); match f.poll(&mut cx) { Poll::Ready(t) => held.push(t), Poll::Pending => return Some("get_token-pending".into()) } } }
     let token = { let r = runner.as_ref().unwrap(); let f = r.get_token(); futures_util::pin_mut!(f); match f.poll(&mut cx) { Poll::Ready(t) => t, Poll::Pending => return Some("get_token-pending".into()) } };
+    let probe = |runner: &Option<fastcgi_server::async_io::Runner>, sh: &Arc<Mutex<Shared>>| {
+        if let Some(r) = runner.as_ref() {
+            let w2 = futures_util::task::noop_waker(); let mut cx2 = Context::from_waker(&w2);
+            let f = r.get_token(); futures_util::pin_mut!(f);
+            let ready = matches!(f.poll(&mut cx2), Poll::Ready(_));
+            sh.lock().unwrap().events.push(if ready { "G:R".into() } else { "G:P".into() });
+        }
+    };
     let (sh2, w2, s2) = (sh.clone(), writers.clone(), scripts.clone());
     fn constrain<F>(f: F) -> F where F: for<'a, 'b> FnMut(&'a mut Request<'b, MockR, MockW>) -> BoxFuture<'a, io::Result<ExitStatus>> { f }
     let h = constrain(move |req| {
@@ -165,6 +178,7 @@ pub fn run_case(args: &[&str]) -> Option<String> {
             Err(_) => { fin = if sh.lock().map(|s| s.spun).unwrap_or_else(|e| e.into_inner().spun) { "SPIN" } else { "PANIC" }; break; }
             Ok(Poll::Ready(())) => { fin = "RET"; break; }
             Ok(Poll::Pending) => {
+                if gate_probe { probe(&runner, &sh); }
                 if flag.0.load(Ordering::SeqCst) { poll_no += 1; continue; }
                 // not woken: is the peer able to release more input?
                 if release(&sh, &mut segs) && flag.0.load(Ordering::SeqCst) { poll_no += 1; continue; }
@@ -179,6 +193,8 @@ pub fn run_case(args: &[&str]) -> Option<String> {
         }
     }
     drop(task);
+    if gate_probe { probe(&runner, &sh); }
+    drop(held);
     let _ = shutdown_fut;
     let s = sh.lock().unwrap();
     Some(format!("{} {fin} wlog={}", s.events.join(" "), hexd(&s.wlog)))
